@@ -416,6 +416,27 @@ func c13Run(c *core.Ctx) {
 							}
 						}
 						runPos([]byte(sb.String()), "application/x-ndjson", "P2:stream")
+						// a blank line as the first or the second line of the stream (the
+						// other one of the first two lines being an object or array):
+						// lines are lines, the limit may cut right after them
+						if isContainer(recs[sel[0]]) {
+							for _, at := range []int{0, 1} {
+								for _, bl := range []string{"", " ", "\t "} {
+									sb.Reset()
+									for i, ri := range sel {
+										if i == at {
+											sb.WriteString(bl)
+											sb.WriteString(eol)
+										}
+										sb.WriteString(recs[ri])
+										if i < len(sel)-1 || final {
+											sb.WriteString(eol)
+										}
+									}
+									runPos([]byte(sb.String()), "application/x-ndjson", "P2:stream-blank-line-among-first-two")
+								}
+							}
+						}
 						// the same stream with a blank line (empty, or holding only
 						// spaces / tabs) after its second record
 						if len(sel) >= 3 {
